@@ -1,7 +1,8 @@
 """C07 -- fundamental sector is a fundamental domain; projection into it is exact."""
 import json
+import os
 
-from vlib import Check, fhex, run_cases, run_impl
+from vlib import BUILD, Check, fhex, run_cases, run_impl
 
 PROP = "C07"
 
@@ -57,15 +58,28 @@ def case_coq(c):
 
 def run(tier, seed):
     ck = Check(PROP, tier, seed)
-    ck.trusted += ["hand model Model/SectorModel.v of Vector3d.in_fundamental_sector (tied by correspondence)",
+    ck.trusted += ["tools/impl/c07cert.py + tools/translate/units_c07.py: sector normals and group operations obtained by RUNNING orix from /repo, recognised exactly in K (fail-closed); the LP search for cover trees / Gordan certificates is untrusted (every certificate is checked by vm_compute, Model/CoverCheck.v, and is sound over R by Proofs/CoverSound.v)",
+                   "hand model Model/SectorModel.v of Vector3d.in_fundamental_sector (tied by correspondence)",
                    "translator for the vector-rotation kernel",
                    "sector normals, centre (mesh mean / MTEX constants) and group elements are taken from the implementation at run time; fundamental_sector / FundamentalSector.center are NOT modelled"]
     ck.assumptions += ["theorems are for exact arithmetic with rounding of closeness values as identity",
-                       "inside-sector, orbit-consistency and fundamental-domain clauses are decided by the brute-force oracle only (see Props/C07.v)"]
+                       "the fundamental-domain clauses (no gaps, no overlaps) are theorems for the exact closed / open sector; the clauses about the PROJECTION landing inside the sector and orbit-consistency are decided by the brute-force oracle only (see Props/C07.v)"]
     if not ck.step_sanity():
         return ck.finish()
-    ck.step_prove(["quatkernels", "conversions"], "Props/C07.v", extra=["Model/SectorModel.vo", "Model/RotArr.vo"])
-    out = run_impl("c07.py", {"seed": seed, "n": 40 if tier == "quick" else 150, "thorough": tier != "quick"}, timeout=3000)
+    ck.step_prove(["quatkernels", "conversions", "groups", "sectors"], "Props/C07.v", extra=["Model/SectorModel.vo", "Model/RotArr.vo"])
+    # the sector certificate search (translator unit `sectors`) leaves, for every sector that is NOT a fundamental
+    # domain, an exact rational witness direction; replay each on the implementation (known ones are listed findings,
+    # a new one is a violation with that direction as the failing input)
+    witnesses = []
+    try:
+        summ = json.load(open(os.path.join(BUILD, "c07_sector_summary.json")))
+        witnesses = summ.get("defects", [])
+        ck.cov["sector_certificates"] = {"subjects": summ["subjects"], "certified": len(summ["ok"]), "leaves": summ["leaves"],
+                                         "defective": [f"{d['group']}/{d['kind']}" for d in witnesses]}
+    except (OSError, ValueError, KeyError):
+        pass
+    out = run_impl("c07.py", {"seed": seed, "n": 40 if tier == "quick" else 150, "thorough": tier != "quick",
+                              "witnesses": witnesses}, timeout=3000)
     cases = out["cases"]
     for c in cases:
         for v in c["v"]:
